@@ -98,6 +98,24 @@ func generate(w *mon.W) {
 			}
 		}
 	}
+	// the same hostile material behind and in front of enough harmless statements
+	// to make the source longer than 1 KiB, 4 KiB and 64 KiB (size-dependent paths)
+	for _, pad := range []int{1100, 4200, 66000} {
+		if pad > 5000 && w.Quick() {
+			continue
+		}
+		padding := strings.Repeat("T | count;\n", pad/11+1)
+		for _, p := range multi {
+			for _, s := range []string{padding + p, p + ";\n" + padding, padding[:len(padding)/2] + p + ";" + padding[:len(padding)/2]} {
+				s := s
+				w.Do(s, func(r *mon.R) { Check(s, r) })
+			}
+		}
+		for _, sep := range []string{"'; ", "`;", "\";", "\\;", "'a\\\n;b'", "\"x\\\n;y\"", "`c\\`;", "// c;\n;", "1e+;", "!;"} {
+			s := padding + "U | where a == " + sep + " V | count"
+			w.Do(s, func(r *mon.R) { Check(s, r) })
+		}
+	}
 	progs := append(append([]string{}, multi...), gen.Seeds()...)
 	for _, p := range progs {
 		for i := 0; i <= len(p); i++ {
